@@ -11,6 +11,7 @@ import (
 	"go.flow.arcalot.io/engine/internal/step"
 	"go.flow.arcalot.io/engine/internal/step/plugin"
 	"go.flow.arcalot.io/engine/zverif/harness"
+	"go.flow.arcalot.io/engine/zverif/ir"
 	"go.flow.arcalot.io/engine/zverif/simrt"
 	"go.flow.arcalot.io/engine/zverif/world"
 	"pgregory.net/rapid"
@@ -26,8 +27,14 @@ type ProvAction struct {
 
 // ProvCase is a class P case: one plugin step driven directly through the provider API.
 type ProvCase struct {
-	NoSignal bool         `json:"nosignal,omitempty"`
-	Actions  []ProvAction `json:"actions"`
+	// Kind is "" for a plugin step, "foreach" for a loop step over a one-step body.
+	Kind     string `json:"kind,omitempty"`
+	NoSignal bool   `json:"nosignal,omitempty"`
+	// Patient makes the body wait, before the final close, until the adversarial part of the schedule is
+	// over and five minutes of simulated time have passed on top: whatever can end by itself has ended by then.
+	Patient bool         `json:"patient,omitempty"`
+	Actions []ProvAction `json:"actions"`
+	advLen  int64
 	// call records filled in by Body (not part of the replay input)
 	calls  []*provCall
 	mu     sync.Mutex
@@ -48,6 +55,7 @@ type provCall struct {
 // Shape is the op sequence without arguments.
 func (p *ProvCase) Shape() string {
 	var b strings.Builder
+	b.WriteString(p.Kind + ";")
 	for _, a := range p.Actions {
 		fmt.Fprintf(&b, "%d:%s:%s;", a.Client, a.Op, a.Stage)
 	}
@@ -87,20 +95,32 @@ func (h recHandler) OnStepStageFailure(_ step.RunningStep, stage string, _ *sync
 // Body drives the provider (runs on env/main inside the bubble).
 func (p *ProvCase) Body(b *harness.BodyCtx) {
 	p.calls = nil
-	prov, err := plugin.New(b.W.Logger(), b.Env.Registry, b.Env.Cfg.LocalDeployers)
-	if err != nil {
-		panic(fmt.Errorf("harness: plugin.New: %w", err))
-	}
-	runnable, err := prov.LoadSchema(map[string]any{"plugin": map[string]any{"src": "sim://p", "deployment_type": "sim"}}, map[string][]byte{})
-	if err != nil {
-		b.W.Log(world.Event{Kind: "client", Data: map[string]any{"what": "loadschema-failed", "err": err.Error()}})
-		return
-	}
+	var runnable step.RunnableStep
+	var err error
 	stepName := "work"
 	if p.NoSignal {
 		stepName = "work_nosignal"
 	}
-	lc, err := runnable.Lifecycle(map[string]any{"step": stepName})
+	lifecycleInput, startInput := map[string]any{"step": stepName}, map[string]any{"step": stepName}
+	if p.Kind == "foreach" {
+		prov, perr := b.Env.Steps.GetByKind("foreach")
+		if perr != nil {
+			panic(fmt.Errorf("harness: foreach provider: %w", perr))
+		}
+		runnable, err = prov.LoadSchema(map[string]any{"workflow": foreachBody.Name}, map[string][]byte{foreachBody.Name: []byte(foreachBody.YAML())})
+		lifecycleInput, startInput = map[string]any{}, map[string]any{}
+	} else {
+		prov, perr := plugin.New(b.W.Logger(), b.Env.Registry, b.Env.Cfg.LocalDeployers)
+		if perr != nil {
+			panic(fmt.Errorf("harness: plugin.New: %w", perr))
+		}
+		runnable, err = prov.LoadSchema(map[string]any{"plugin": map[string]any{"src": "sim://p", "deployment_type": "sim"}}, map[string][]byte{})
+	}
+	if err != nil {
+		b.W.Log(world.Event{Kind: "client", Data: map[string]any{"what": "loadschema-failed", "err": err.Error()}})
+		return
+	}
+	lc, err := runnable.Lifecycle(lifecycleInput)
 	if err != nil {
 		panic(fmt.Errorf("harness: Lifecycle: %w", err))
 	}
@@ -117,7 +137,7 @@ func (p *ProvCase) Body(b *harness.BodyCtx) {
 		}
 	}
 	simrt.EnvPoint("env:start", false, 0)
-	rs, err := runnable.Start(map[string]any{"step": stepName}, "p", recHandler{b.W, b.Sim})
+	rs, err := runnable.Start(startInput, "p", recHandler{b.W, b.Sim})
 	if err != nil {
 		panic(fmt.Errorf("harness: Start: %w", err))
 	}
@@ -170,6 +190,13 @@ func (p *ProvCase) Body(b *harness.BodyCtx) {
 	for _, d := range dones {
 		<-d
 	}
+	if p.Patient {
+		for p.advLen > 0 && b.Sim.Seq() < p.advLen+10 {
+			time.Sleep(5 * time.Minute) // (the scheduler calls a run stuck after ten idle minutes)
+			simrt.EnvPoint("env:patience", false, 0)
+		}
+		time.Sleep(5 * time.Minute)
+	}
 	// let the step finish whatever it is doing, then close it for good (every run ends with a close)
 	simrt.EnvPoint("env:final-close", true, 0)
 	call := &provCall{Idx: len(p.Actions), Act: ProvAction{Op: "close", Client: -1}, Invoke: b.Sim.Seq()}
@@ -190,7 +217,115 @@ func (p *ProvCase) Body(b *harness.BodyCtx) {
 	b.W.Log(world.Event{Kind: "client", Data: map[string]any{"what": "final-state", "state": p.final}})
 }
 
+// foreachBody is the loop body of the foreach cases: one plugin step whose outcome the item decides.
+var foreachBody = &ir.Program{
+	Name: "body.yaml", Item: true, SrcPrefix: "body/",
+	Steps: []*ir.Step{{ID: "b0", Kind: "plugin", In: []ir.Field{
+		ir.F("a", ir.Ref("input", "v")), ir.F("mode", ir.Ref("input", "mode")), ir.F("dur", ir.Ref("input", "dur")),
+	}}},
+	Outputs: []ir.Output{{ID: "success", E: ir.Obj(ir.F("r", ir.StepRef("b0", "outputs", "success", "a")))}},
+}
+
+// genForeachProvCase draws a loop step driven directly through the provider API.
+func genForeachProvCase(t *rapid.T) *Case {
+	pc := &ProvCase{Kind: "foreach", Patient: rapid.Bool().Draw(t, "patient")}
+	nClients := rapid.IntRange(1, 3).Draw(t, "nclients")
+	cl := func() int { return rapid.IntRange(0, nClients-1).Draw(t, "client") }
+	enablingArg := map[string]any{}
+	switch rapid.IntRange(0, 3).Draw(t, "enabled_kind") {
+	case 0:
+		enablingArg["enabled"] = false
+	case 1:
+		enablingArg["enabled"] = true
+	}
+	genItems := func() []any {
+		n := rapid.IntRange(0, 3).Draw(t, "nitems")
+		items := make([]any, n)
+		for i := range items {
+			items[i] = map[string]any{
+				"v":    int64(i + 1),
+				"mode": rapid.SampledFrom([]string{"ok", "ok", "ok", "err", "hang", "crash"}).Draw(t, "item_mode"),
+				"dur":  int64(rapid.SampledFrom([]int{0, 5, 100}).Draw(t, "item_dur")),
+			}
+		}
+		return items
+	}
+	executeArg := map[string]any{"items": genItems()}
+	switch rapid.IntRange(0, 4).Draw(t, "par_kind") {
+	case 0:
+		executeArg["parallelism"] = int64(1)
+	case 1:
+		executeArg["parallelism"] = int64(2)
+	case 2:
+		executeArg["parallelism"] = int64(0) // invalid: must be refused
+	}
+	skeleton := []ProvAction{
+		{Op: "provide", Stage: "enabling", Arg: enablingArg},
+		{Op: "provide", Stage: "execute", Arg: executeArg},
+	}
+	perm := rapid.Permutation(skeleton).Draw(t, "order")
+	keep := rapid.IntRange(0, 2).Draw(t, "keep")
+	if rapid.IntRange(0, 2).Draw(t, "full") != 0 {
+		keep = 2
+	}
+	var acts []ProvAction
+	for i := 0; i < keep; i++ {
+		a := perm[i]
+		a.Client = cl()
+		acts = append(acts, a)
+	}
+	nExtra := rapid.IntRange(0, 5).Draw(t, "nextra")
+	for i := 0; i < nExtra; i++ {
+		var a ProvAction
+		switch rapid.IntRange(0, 8).Draw(t, "extra_kind") {
+		case 0, 1:
+			a = ProvAction{Op: "close"}
+		case 2:
+			a = ProvAction{Op: "force-close"}
+		case 3:
+			a = skeleton[rapid.IntRange(0, 1).Draw(t, "dup")] // a duplicate provide
+		case 4:
+			a = ProvAction{Op: "provide", Stage: "execute", Arg: map[string]any{"items": genItems()}} // a second, different item list
+		case 5:
+			a = ProvAction{Op: "state"}
+		case 6:
+			a = ProvAction{Op: "stage"}
+		case 7:
+			a = ProvAction{Op: "provide", Stage: rapid.SampledFrom([]string{"outputs", "failed", "disabled", "closed", "bogus"}).Draw(t, "noinput_stage"), Arg: map[string]any{}}
+		default:
+			a = ProvAction{Op: "provide", Stage: "execute", Arg: map[string]any{"items": []any{map[string]any{"mode": "ok"}}}} // invalid item: v is missing
+		}
+		a.Client = cl()
+		pos := rapid.IntRange(0, len(acts)).Draw(t, "pos")
+		acts = append(acts[:pos], append([]ProvAction{a}, acts[pos:]...)...)
+	}
+	pc.Actions = acts
+	c := &Case{Property: "C12", Profile: "foreach-provider", Class: "P", Prov: pc}
+	c.Plan = world.Plan{Run: map[string]world.RunFault{}}
+	if rapid.IntRange(0, 5).Draw(t, "conn_fault") == 0 {
+		var f world.RunFault
+		switch rapid.IntRange(0, 2).Draw(t, "conn_kind") {
+		case 0:
+			f.KillAtByte = int64(rapid.IntRange(1, 3500).Draw(t, "kill_at"))
+		case 1:
+			f.SchemaDrop = true
+		default:
+			f.KillAfterMsgs = rapid.IntRange(1, 2).Draw(t, "kill_msgs")
+		}
+		c.Plan.Run[foreachBody.Src("b0")] = f
+	}
+	c.Policy = GenPolicyFor(t, true, "internal/step/foreach/provider.go")
+	if c.Policy.PEnv == 0 {
+		c.Policy.PEnv = 100
+	}
+	c.MapMode, c.MapSeed = GenMapOrder(t)
+	return c
+}
+
 func genProvCase(t *rapid.T) *Case {
+	if rapid.IntRange(0, 2).Draw(t, "provider_kind") == 0 {
+		return genForeachProvCase(t)
+	}
 	pc := &ProvCase{NoSignal: rapid.IntRange(0, 3).Draw(t, "nosignal") == 0}
 	nClients := rapid.IntRange(1, 3).Draw(t, "nclients")
 	cl := func() int { return rapid.IntRange(0, nClients-1).Draw(t, "client") }
@@ -279,12 +414,47 @@ func genProvCase(t *rapid.T) *Case {
 		}
 		c.Plan.Run["sim://p"] = f
 	}
-	c.Policy = GenPolicy(t, true)
+	c.Policy = GenPolicyFor(t, true, "internal/step/plugin/provider.go")
 	if c.Policy.PEnv == 0 {
 		c.Policy.PEnv = 100
 	}
 	c.MapMode, c.MapSeed = GenMapOrder(t)
 	return c
+}
+
+// leftAlone says whether a loop step case gives the step everything it needs and never closes it
+// before the final close (which is only issued once nothing else can happen): enabling and items
+// accepted, no item that never ends, no close action.
+func (p *ProvCase) leftAlone() bool {
+	if !p.Patient {
+		return false
+	}
+	okEnable, okExecute := false, false
+	for _, cl := range p.calls {
+		a := cl.Act
+		if a.Op == "close" || a.Op == "force-close" {
+			if cl.Act.Client >= 0 {
+				return false
+			}
+			continue
+		}
+		if a.Op != "provide" || !cl.Returned || cl.Err != "" {
+			continue
+		}
+		switch a.Stage {
+		case "enabling":
+			okEnable = true
+		case "execute":
+			items, _ := a.Arg["items"].([]any)
+			for _, it := range items {
+				if m, _ := it.(map[string]any); m != nil && m["mode"] == "hang" {
+					return false
+				}
+			}
+			okExecute = true
+		}
+	}
+	return okEnable && okExecute
 }
 
 type provModelState struct {
@@ -321,6 +491,10 @@ func lifecycleOracle(c *Case, r *harness.Result) []Violation {
 	impossible := map[string]bool{}
 	entered := map[string]bool{}
 	current := ""
+	if p.Kind == "foreach" {
+		current = "enabling" // a loop step is born in its first stage and never announces entering it
+		entered[current] = true
+	}
 	currentFailed := false
 	completes := 0
 	// leaves reports whether a notification may name prev as the stage it leaves
@@ -341,7 +515,7 @@ func lifecycleOracle(c *Case, r *harness.Result) []Violation {
 		case "change":
 			prev, hasPrev := e.Data["prev"].(string)
 			stage, _ := e.Data["stage"].(string)
-			if i == 0 && hasPrev {
+			if i == 0 && hasPrev && p.Kind != "foreach" {
 				add("first-notification-has-previous-stage", "", "the first notification names previous stage %q: %s", prev, hist())
 			}
 			if hasPrev {
@@ -355,6 +529,8 @@ func lifecycleOracle(c *Case, r *harness.Result) []Violation {
 				if out, ok := e.Data["out"].(string); ok && !p.stages[prev][out] {
 					add("undeclared-output", prev+"."+out, "stage %q reported output %q which its lifecycle does not declare: %s", prev, out, hist())
 				}
+			} else if p.Kind == "foreach" && stage == current {
+				// the loop step announces whether the stage it has just entered still waits for input
 			} else if i != 0 {
 				add("discontinuous", "no-previous-stage", "notification %d has no previous stage: %s", i, hist())
 			}
@@ -400,10 +576,22 @@ func lifecycleOracle(c *Case, r *harness.Result) []Violation {
 			add("finished-and-impossible", st, "stage %q was reported both finished and impossible: %s", st, hist())
 		}
 	}
-	if r.Outcome == "completed" {
+	if r.Outcome == "completed" && p.Kind == "foreach" {
+		// The loop step is not the subject of the property's "exactly one completion" clause (a loop step
+		// that is closed while it waits for its items ends silently); what carries over is: never more than
+		// one, and one whenever the step was left alone to run to its end.
+		if completes > 1 {
+			add("completion-count", fmt.Sprint(completes), "%d completion reports (expected at most one): %s", completes, hist())
+		}
+		if completes == 0 && p.leftAlone() {
+			add("completion-missing", "", "the loop step got both inputs, was not closed before it had every reason to end, and reported no completion: %s", hist())
+		}
+	} else if r.Outcome == "completed" {
 		if completes != 1 && len(notes) > 0 {
 			add("completion-count", fmt.Sprint(completes), "%d completion reports (expected exactly one): %s", completes, hist())
 		}
+	}
+	if r.Outcome == "completed" {
 		if completes == 1 && p.final != "finished" {
 			add("state-after-completion", p.final, "completion was reported but State() is %q after the final Close", p.final)
 		}
@@ -445,10 +633,16 @@ func provCheck(c *Case, r *harness.Result) []Violation {
 			a := input.(ProvAction)
 			errStr := output.(string)
 			if a.Op != "provide" {
+				if p.Kind == "foreach" && !strings.Contains(st, "|closed") {
+					st += "|closed"
+				}
 				return true, st
 			}
+			if p.Kind == "foreach" && strings.Contains(st, "|closed") && errStr == "" {
+				return true, st // a closed loop step ignores input without complaint
+			}
 			switch a.Stage {
-			case "deploy", "enabling", "starting":
+			case "deploy", "enabling", "starting", "execute":
 				key := "|" + a.Stage
 				if strings.Contains(st, key) {
 					return errStr != "", st // a second provide for the stage must be refused
